@@ -16,6 +16,10 @@ class Writer(Protocol):
         """Writes the footer."""
 
 
+# A record that starts at this offset reads as the "EOF" marker that ends an IPS patch.
+IPS_EOF_MARKER_OFFSET = 0x454F46
+
+
 class IPSWriter(Writer):
     def __init__(self, file: BinaryIO, copier_header: bool = False) -> None:
         self.file = file
@@ -28,6 +32,8 @@ class IPSWriter(Writer):
     def write_block_header(self, block: bytes, block_address: int) -> None:
         if self._copier_header:
             block_address += 0x200
+        if block_address == IPS_EOF_MARKER_OFFSET:
+            raise ValueError("IPS cannot represent a record starting at offset 0x454F46 ('EOF' marker).")
         self.file.write(struct.pack(">BH", block_address >> 16, block_address & 0xFFFF))
         self.file.write(struct.pack(">H", len(block)))
 
@@ -35,6 +41,10 @@ class IPSWriter(Writer):
         k = 0
         while block[k:]:
             slice_size = min(0xFFFF, len(block) - k)
+            next_record_address = block_address + slice_size + (0x200 if self._copier_header else 0)
+            if slice_size < len(block) - k and next_record_address == IPS_EOF_MARKER_OFFSET:
+                # never start the following record on the "EOF" marker offset.
+                slice_size -= 1
             block_slice = block[k : k + slice_size]
 
             self.write_block_header(block_slice, block_address)
